@@ -83,9 +83,11 @@ PtrSize == 8
    kc : integer constants declared by #define / static const (name -> value as text)
    fn : function name -> <<res, <<args>>, ellipsis>>
    gv : global variable name -> term
-   inc: keys of declarations that came in through ffi.include() (C34)              *)
+   inc: keys of declarations that came in through ffi.include() (C34)
+   anon: cparser.py _anonymous_counter: number of "$N" names given so far to nested anonymous
+        aggregates ( struct s1 { struct { int x; } c; }; : the type of c is "struct $1" )          *)
 EnvInit == [td |-> EmptyFn, su |-> EmptyFn, en |-> EmptyFn, kc |-> EmptyFn,
-            fn |-> EmptyFn, gv |-> EmptyFn, inc |-> {}]
+            fn |-> EmptyFn, gv |-> EmptyFn, inc |-> {}, anon |-> 0]
 
 OpaqueSU == [complete |-> FALSE, fields |-> <<>>, force |-> ""]
 
@@ -100,6 +102,7 @@ Res(env, t) ==      \* replace typedef names by what they stand for
 RECURSIVE SUsOf(_)
 SUsOf(t) ==         \* struct/union keys mentioned in a term (td nodes are not entered)
   CASE IsSU(t) -> {t}
+    [] t[1] = "anon" -> UNION {SUsOf(t[3][i][2]) : i \in DOMAIN t[3]}
     [] t[1] \in {"ptr", "arr"} -> SUsOf(t[2])
     [] t[1] = "fnp" -> SUsOf(t[2]) \cup UNION {SUsOf(t[3][i]) : i \in DOMAIN t[3]}
     [] OTHER -> {}
@@ -245,23 +248,44 @@ DeclTypedefE(env, n, t) ==
   IN [env EXCEPT !.td = Put(@, n, rt), !.su = su2]
 
 \* typedef struct { fields } n;      (anonymous aggregate named by its typedef: tag "$n")
+\* A field is <<name, type, bitsize>>; its type may be <<"anon", kind, <<plain fields>>>>: an
+\* anonymous aggregate defined in place ( struct { int x; } c; ), which cparser.py names "$N".
+IsAnon(t) == t[1] = "anon"
+PlainFieldG(env, self, f) ==
+  /\ WF(env, f[2]) /\ ~IsAnon(f[2])
+  /\ Complete(env, Res(env, f[2]))                 \* a field needs a complete type
+  /\ self \notin SUsOf(Res(env, f[2])) \/ Res(env, f[2])[1] \in {"ptr", "fnp"}
+  /\ f[3] = Unk \/ (f[3] \in 1..32 /\ Res(env, f[2]) \in {Prim("int"), Prim("unsigned int")})
 FieldsG(env, self, fs) ==
   /\ Len(fs) >= 1
   /\ \A i \in DOMAIN fs :
-       /\ WF(env, fs[i][2])
-       /\ Complete(env, Res(env, fs[i][2]))         \* a field needs a complete type
-       /\ self \notin SUsOf(Res(env, fs[i][2])) \/ Res(env, fs[i][2])[1] \in {"ptr", "fnp"}
-       /\ fs[i][3] = Unk \/ (fs[i][3] \in 1..32 /\ Res(env, fs[i][2]) \in {Prim("int"), Prim("unsigned int")})
+       IF IsAnon(fs[i][2])
+       THEN /\ fs[i][3] = Unk /\ fs[i][2][2] \in {"struct", "union"} /\ Len(fs[i][2][3]) >= 1
+            /\ \A j \in DOMAIN fs[i][2][3] : PlainFieldG(env, self, fs[i][2][3][j])
+            /\ \A j, j2 \in DOMAIN fs[i][2][3] : j # j2 => fs[i][2][3][j][1] # fs[i][2][3][j2][1]
+       ELSE PlainFieldG(env, self, fs[i])
   /\ \A i, j \in DOMAIN fs : i # j => fs[i][1] # fs[j][1]
   /\ KindOK(env, {self} \cup UNION {SUsOf(fs[i][2]) : i \in DOMAIN fs})
 ResFields(env, fs) == [i \in DOMAIN fs |-> <<fs[i][1], Res(env, fs[i][2]), fs[i][3]>>]
 FieldSUs(fs) == UNION {SUsOf(fs[i][2]) : i \in DOMAIN fs}
+\* naming the anonymous aggregates of a field list: the k-th one gets "$(anon + k)"
+AnonIdx(fs, i) == Cardinality({j \in 1..i : IsAnon(fs[j][2])})
+AnonKey(env, fs, i) == <<fs[i][2][2], "$" \o ToString(env.anon + AnonIdx(fs, i))>>
+Lifted(env, fs) == [i \in DOMAIN fs |-> IF IsAnon(fs[i][2]) THEN <<fs[i][1], AnonKey(env, fs, i), fs[i][3]>> ELSE fs[i]]
+WithAnons(env, su, fs) ==
+  LET idx == {i \in DOMAIN fs : IsAnon(fs[i][2])}
+      keys == {AnonKey(env, fs, i) : i \in idx}
+      of(key) == CHOOSE i \in idx : AnonKey(env, fs, i) = key
+  IN [k \in (DOMAIN su) \cup keys |->
+        IF k \in keys THEN [complete |-> TRUE, fields |-> ResFields(env, fs[of(k)][2][3]), force |-> ""] ELSE su[k]]
+NAnon(fs) == Cardinality({i \in DOMAIN fs : IsAnon(fs[i][2])})
 
 DeclTypedefAnonE(env, n, kind, fs) ==
   LET key == <<kind, "$" \o n>>
-      su1 == Mention(env.su, FieldSUs(fs))
+      su1 == WithAnons(env, Mention(env.su, FieldSUs(fs)), fs)
   IN [env EXCEPT !.td = Put(@, n, key),
-                 !.su = Put(su1, key, [complete |-> TRUE, fields |-> ResFields(env, fs), force |-> n])]
+                 !.su = Put(su1, key, [complete |-> TRUE, fields |-> ResFields(env, Lifted(env, fs)), force |-> n]),
+                 !.anon = @ + NAnon(fs)]
 DeclTypedefAnonG(env, n, kind, fs) ==
   /\ n \notin DOMAIN env.td
   /\ <<kind, "$" \o n>> \notin DOMAIN env.su
@@ -275,8 +299,9 @@ DeclFwdE(env, kind, tag) == [env EXCEPT !.su = Mention(@, {<<kind, tag>>})]
 \* struct s1 { fields };
 DeclStructE(env, kind, tag, fs) ==
   LET key == <<kind, tag>>
-      su1 == Mention(env.su, {key} \cup FieldSUs(fs))
-  IN [env EXCEPT !.su = [su1 EXCEPT ![key].complete = TRUE, ![key].fields = ResFields(env, fs)]]
+      su1 == WithAnons(env, Mention(env.su, {key} \cup FieldSUs(fs)), fs)
+  IN [env EXCEPT !.su = [su1 EXCEPT ![key].complete = TRUE, ![key].fields = ResFields(env, Lifted(env, fs))],
+                 !.anon = @ + NAnon(fs)]
 DeclStructG(env, kind, tag, fs) ==
   /\ <<kind, tag>> \in DOMAIN env.su => ~env.su[<<kind, tag>>].complete
   /\ <<kind, tag>> \notin env.inc
@@ -403,6 +428,8 @@ ConstVal(env, name) ==
        IN env.en[e].vals[i]
 
 SUOfStr(env, s) == CHOOSE k \in DOMAIN env.su : KeyStr(k) = s
+\* nested anonymous aggregates "$N" cannot be asked for by name; they show in their parent's fields
+Queryable(key) == ~(Len(key[2]) >= 2 /\ SubSeq(key[2], 1, 1) = "$" /\ SubSeq(key[2], 2, 2) \in Digits)
 
 Obs(env) ==
   [ td |-> [n \in DOMAIN env.td |-> Norm(env, env.td[n])],
@@ -454,7 +481,15 @@ FieldLists(e, selfptr) ==
       C2 == {Prim("char")} \cup selfptr \cup (IF "arr" \in Feat THEN {Arr(Prim("int"), 3)} ELSE {})
       B  == IF "bits" \in Feat THEN {<< <<"a", Prim("int"), 3>>, <<"b", Prim("int"), 30>>, <<"c", Prim("char"), Unk>> >>,
                                      << <<"a", Prim("char"), Unk>>, <<"b", Prim("unsigned int"), 5>> >>} ELSE {}
-  IN {<< <<"a", c, Unk>> >> : c \in C1} \cup {<< <<"a", c, Unk>>, <<"b", d, Unk>> >> : c \in C1, d \in C2} \cup B
+      N  == IF "nested" \in Feat
+            THEN {<< <<"a", <<"anon", "struct", << <<"x", Prim("int"), Unk>>, <<"y", Prim("char"), Unk>> >> >>, Unk>>,
+                     <<"b", Prim("char"), Unk>> >>,
+                  << <<"a", Prim("char"), Unk>>,
+                     <<"b", <<"anon", "union", << <<"x", Prim("int"), Unk>>, <<"y", Ptr(Prim("char")), Unk>> >> >>, Unk>>,
+                     <<"c", <<"anon", "struct", << <<"x", Prim("char"), Unk>> >> >>, Unk>> >>}
+                 \cup {<< <<"a", <<"anon", "struct", << <<"x", p, Unk>> >> >>, Unk>> >> : p \in selfptr}
+            ELSE {}
+  IN {<< <<"a", c, Unk>> >> : c \in C1} \cup {<< <<"a", c, Unk>>, <<"b", d, Unk>> >> : c \in C1, d \in C2} \cup B \cup N
 
 EnumShapes == { << <<"A">>, <<"0">> >>, << <<"A", "B">>, <<"0", "5">> >>, << <<"A", "B">>, <<"-1", "1">> >> }
 EnumNames(tag, ns) == [i \in DOMAIN ns |-> tag \o ns[i]]       \* e1A, e1B: unique per enum
